@@ -2,6 +2,10 @@
 import importlib, os, sys, traceback
 
 sys.path.insert(0, os.path.dirname(os.path.abspath(__file__)))
+# VERIF_REPO=<dir> runs the checks against another checkout of mitre/menelaus (used to try
+# seeded changes in a scratch worktree); by default the installed package = /repo's working tree.
+if os.environ.get("VERIF_REPO"):
+    sys.path.insert(1, os.environ["VERIF_REPO"])
 import core
 
 BASE_TRUST = [
